@@ -27,7 +27,7 @@ DEFAULT_PROFILE = dict(
 
 PROFILES = {
     "core": {},
-    "fields": dict(p_multitype=0.4, p_box=0.25, w_struct=7, w_enum=2, w_alias=2, p_include=0.15),
+    "fields": dict(p_nested_field_closure=0.4, p_multitype=0.4, p_box=0.25, w_struct=7, w_enum=2, w_alias=2, p_include=0.15),
     "types": dict(p_multitype=0.45, p_box=0.3, w_struct=7, w_enum=2, w_alias=2, p_include=0.2, p_keywords=0.35,
                   p_position=0.3, w_extern=1, nrules=(3, 8)),
     "unicode": dict(p_unicode=0.7, p_insens=0.2, w_char=3, w_string=3, p_ccheck=0.3, w_extern=1, p_position=0.4),
@@ -40,15 +40,15 @@ PROFILES = {
                     p_position=0.35, p_single_lit_string=0.3, nrules=(3, 7)),
     "memo": dict(p_shared_prefix=0.35, p_memo=0.5, p_lookahead=0.2, nrules=(3, 7), p_check=0.3, p_ccheck=0.2, w_extern=4, w_char=2),
     "memofail": dict(p_shared_prefix=0.5, w_alias=3, p_memo=1.0, p_probe=0.7, p_lookahead=0.15, w_extern=1, nrules=(3, 6), p_check=0.35, p_ccheck=0.2, w_char=2),
-    "dupfields": dict(nrules=(2, 4), depth=4, small_fieldpool=3, p_multitype=0.85, w_struct=8, w_string=3, w_unit=0, w_alias=0,
+    "dupfields": dict(p_nested_field_closure=0.4, nrules=(2, 4), depth=4, small_fieldpool=3, p_multitype=0.85, w_struct=8, w_string=3, w_unit=0, w_alias=0,
                       w_enum=0, w_char=1, p_include=0.15, p_lookahead=0.03, p_noskip=0.1, dense_fields=True),
     "leftrec": dict(leftrec=1.0, p_memo=0.1, p_position=0.3, p_check=0.4, p_probe=0.5),
-    "ws": dict(p_noskip=0.5, p_user_ws=0.35, p_include=0.25, w_string=3, p_position=0.3, p_ws_lit=0.15),
+    "ws": dict(p_noskip=0.5, p_user_ws=0.45, p_include=0.25, w_string=3, p_position=0.3, p_ws_lit=0.15),
     "position": dict(p_position=0.8, p_unicode=0.3, w_string=3, w_enum=2, p_memo=0.15, leftrec=0.15),
     "errors": dict(p_lookahead=0.25, p_check=0.25, w_extern=1, w_char=2, p_ccheck=0.3, p_eoi_root=0.8),
-    "include": dict(p_user_ws=0.25, p_lonely_include=0.35, p_nest_include=0.6, p_name_family=0.3, p_include=0.6, p_noskip=0.4, p_position=0.3, p_memo=0.15, p_check=0.15, w_struct=8,
+    "include": dict(p_fields_in_string=0.5, w_string=4, p_user_ws=0.25, p_lonely_include=0.35, p_nest_include=0.6, p_name_family=0.3, p_include=0.6, p_noskip=0.4, p_position=0.3, p_memo=0.15, p_check=0.15, w_struct=8,
                     w_unit=2, w_alias=0, w_enum=1),
-    "userfn": dict(p_check=0.6, p_ccheck=0.6, w_extern=4, w_char=2, user_ctx=0.4, w_string=2, w_enum=2, w_alias=2, leftrec=0.3),
+    "userfn": dict(p_check=0.6, p_ccheck=0.6, w_extern=4, w_char=4, user_ctx=0.4, w_string=2, w_enum=2, w_alias=2, leftrec=0.3),
     "trace": dict(p_memo=0.3, leftrec=0.3, p_check=0.3, w_extern=2, p_ccheck=0.2),
     "keywords": dict(p_keywords=0.8),
     # every feature at once: the combinations (memo x check, leftrec x position, extern x @string, ctx x include ...)
@@ -77,7 +77,9 @@ UNI_RANGES = [("\x7f", "\x80"), ("a", "é"), ("à", "ÿ"), ("Ā", "߿"), ("ࠀ",
 CHECK_FNS = ["chk0", "chk1", "chk2", "chk3"]
 CCHECK_FNS = ["cchk0", "cchk1"]
 EXTERNS = [("ext_ident", None), ("ext_two", None), ("ext_num", ["vfrt", "vfu", "XNum"]), ("ext_cond", None),
-           ("ext_zero", None), ("ext_nested", None)]
+           ("ext_zero", None), ("ext_nested", None),
+           # long form whose function result is only convertible into the declared type (`.into()` is documented for both forms)
+           ("ext_ident", ["String"]), ("ext_two", ["String"])]
 
 
 class Gen:
@@ -340,7 +342,13 @@ class Gen:
 
     def user_whitespace(self):
         r = self.r
-        style = r.randint(0, 3)
+        style = r.randint(0, 4)
+        if style == 4:
+            # a whitespace definition that can *fail* (tabs are forbidden / a marker ends the skippable region): the token that
+            # asked for the skip then fails like any other non-match - optionals decline, closures stop, alternatives move on
+            stop = r.choice(["\t", "~", "\x0c"])
+            body = Cho([Seq([Clo(Cho([Seq([Lit(" ")]), Seq([Lit("\n")])])), Neg(Lit(stop))])])
+            return [Rule("Whitespace", body, ["no_skip_ws"])]
         if style == 3:
             # pieces of the whitespace definition pulled in with `>` from rules that are not @no_skip_ws themselves (an included
             # body runs with the includer's settings, the directives of the included rule have no effect)
@@ -369,10 +377,10 @@ class Gen:
             if x < 0.35:
                 c = self.r.choice(UNI_LITS if self.coin(self.p["p_unicode"]) else ASCII_LITS)[0]
                 parts.append(("lit", c))
-            elif x < 0.8:
+            elif x < (0.62 if later_char else 0.8):
                 rg = self.rng()
                 parts.append(("rng", rg.a, rg.b))
-            elif x < 0.9 and later_char:
+            elif x < 0.93 and later_char:
                 parts.append(("ref", self.r.choice(later_char)))
             else:
                 parts.append(("ref", "char"))
@@ -547,8 +555,25 @@ class Gen:
         if x < 0.65:
             if self.coin(0.15):
                 return Opt(self.tight_choice(mode, consumed))
+            if self.coin(0.3):
+                return Opt(Cho([Seq([self.single_item(mode, consumed)])]))  # ['b']  [x:Item]  ['a'..'z']
             return Opt(self.cho(depth - 1, mode, consumed))
         if x < 0.77:
+            if mode == "named" and self.coin(self.p.get("p_nested_field_closure", 0.12)):
+                # one field collected by nested closures: every outer iteration contributes a varying number of matches
+                #   { '[' { v:T } ']' }     { v:T { '|' v:T } ';' }+
+                ts = [t for t in self.names[self.cur_i + 1:] if self.kinds.get(t) in ("char", "string")] + ["char"]
+                t = self.r.choice(ts)
+                f = self.r.choice(self.fieldpool)
+                if f not in self.used_fields:
+                    self.used_fields.append(f)
+                if self.coin(0.5):
+                    body = Seq([Lit(self.r.choice(["[", "(", "<"])), Clo(Cho([Seq([Ref(t, f)])])), Lit(self.r.choice(["]", ")", ";"]))])
+                else:
+                    body = Seq([Ref(t, f), Clo(Cho([Seq([Lit(self.r.choice(["|", ","])), Ref(t, f)])])), Lit(";")])
+                return Clo(Cho([body]), self.coin(0.4))
+            if self.coin(0.3):
+                return Clo(Cho([Seq([self.single_item(mode, consumed, nonnull=True)])]), self.coin(0.35))  # {'b'}  {x:Item}+
             return Clo(self.nonnull_cho(depth - 1, mode, consumed), self.coin(0.35))
         if x < 0.84:
             return Grp(self.cho(depth - 1, mode, consumed))
@@ -576,6 +601,18 @@ class Gen:
         if x < 0.97:
             return self.lit()
         return Eoi()
+
+    def single_item(self, mode, consumed, nonnull=False):
+        """one literal / range / reference to a rule that always consumes (the body of the most common brackets)"""
+        y = self.r.random()
+        if y < 0.4:
+            return self.lit_nonempty()
+        if y < 0.55:
+            return self.rng()
+        if nonnull:
+            return self.consuming_ref(mode)
+        e = self.ref(mode, consumed)
+        return e if not (isinstance(e, Lit) and e.s == "") else Lit("a")
 
     def tight_choice(self, mode, consumed, nest=True):
         """a choice of single items (literal / range / field / optional of one of those / nested group of the same kind) with
